@@ -18,7 +18,8 @@ RULE = (
     "default and with the options' logical type} x entry point {generic: stream_frames from generator / sink, "
     "flat_stream_to_file, grouped_stream_to_file, sink.serialize; rdflib: Graph/Dataset.serialize with options, with an "
     "explicit stream, stream_frames, flat_stream_to_file, grouped_stream_to_file} x Hypothesis-generated non-empty inputs "
-    "of the matching arity (lengths 1, 2, frame_size+-1, longer). Oracle: the combination raises (at construction or at "
+    "of the matching arity (lengths 1, 2, frame_size+-1, longer) plus two fixed shapes (a consecutive duplicate; one triple "
+    "in two graphs back to back). Oracle: the combination raises (at construction or at "
     "the call), or the bytes written decode - by the reference decoder and by pyjelly's own flat parser - to the input "
     "and no captured stream has rows left in its flow when the call returns. "
     "non-trivial = accepted configuration that is not the default (non-delimited, grouped or unspecified logical type, "
@@ -206,6 +207,12 @@ def inputs_for(seed, tier):
         picked = [by_len[k] for k in sorted(by_len)][:n + 2]
         lens = sorted({1, 2, 4} & set(by_len)) or sorted(by_len)[:3]
         out[arity] = [by_len[k] for k in (lens if tier == "quick" else sorted(by_len))]
+    # two fixed shapes generated data rarely has: a consecutive duplicate, and one triple in two graphs back to back
+    a = [["iri", "http://ex.org/s"], ["iri", "http://ex.org/p"], ["lit", "v", None, None]]
+    b = [["iri", "http://ex.org/s2"], ["iri", "http://ex.org/p"], ["iri", "http://ex.org/o"]]
+    out[3].append([a, a, b, b])
+    g1, g2 = ["iri", "http://ex.org/g1"], ["bnode", "g2"]
+    out[4].append([a + [g1], a + [g2], b + [g2], b + [["default"]], a + [["default"]]])
     return out
 
 
